@@ -50,6 +50,8 @@ def iban_points(text: str):
     r["validate()"] = lib.outcome(obj.validate)
     r["validate(True)"] = lib.outcome(obj.validate, True)
     r["is_valid"] = lib.outcome(lambda: obj.is_valid)
+    k2, v2 = lib.outcome(lambda: str(lib.IBAN(obj)))  # validating constructor given the object
+    r["IBAN(obj)"] = (k2, v2)
     return r
 
 
@@ -74,6 +76,8 @@ def judge_iban(text: str):
     if not (a == b == c) and not any(x[0] == "foreign" for x in (r["IBAN(t)"], iv, r["validate()"])):
         problems.append(("entry-points-disagree", "constructor <=> is_valid <=> validate()",
                          {"IBAN(t)": r["IBAN(t)"], "is_valid": iv, "validate()": r["validate()"]}))
+    if (r["IBAN(obj)"][0] == "ok") != a and "foreign" not in (r["IBAN(obj)"][0], r["IBAN(t)"][0]):
+        problems.append(("constructor-given-an-IBAN-object-disagrees", r["IBAN(t)"], r["IBAN(obj)"]))
     if (r["IBAN(t,nat)"][0] == "ok") != (r["validate(True)"][0] == "ok") and "foreign" not in (
             r["IBAN(t,nat)"][0], r["validate(True)"][0]):
         problems.append(("entry-points-disagree-national", "IBAN(t,validate_bban=True) <=> validate(True)",
@@ -218,6 +222,21 @@ def iban_shard(args):
                                     "how": f"{fam} from base {filler} {base}"}, exp, obs)
         part.sample({"country": country, "filler": filler, "base": base, "examples": examples})
         part.stat("iban_bases")
+    if country in nat.COUNTRIES:
+        # a family of nationally valid bodies (reference digits): every error raised for them with
+        # national validation on would name a defect that is not present
+        from . import c06
+        for body in c06.bodies(country, tier, ["distinct"]):
+            good = nat.with_check(country, body)
+            if good is None:
+                continue
+            text = bases.iban_text(country, good)
+            part["evals"] += 7
+            part.seen.add(hash(text))
+            for sig, exp, obs in judge_iban(text):
+                part.violation(f"{sig} [nationally valid body]", {"kind": "iban_text", "text": text,
+                               "how": "reference national digits"}, exp, obs)
+        part.stat("national_countries_with_valid_family")
     if country == "DE":
         german_method_cases(part, tier)
     part.stat("countries")
@@ -286,7 +305,7 @@ def main(tier: str) -> int:
     shards = [("iban", c, tier) for c in countries] + [("bic", b, tier) for b in c04.bases()]
     par.run_shards(run, shard, shards)
     run.extra.update({"countries": len(countries), "bic_bases": len(c04.bases()),
-                      "entry_points": {"iban": 6, "bic": 5},
+                      "entry_points": {"iban": 7, "bic": 5},
                       "alphabet_size": len(alphabet.wide(tier == "thorough")),
                       "deviation_bound_completed": "1 edit over W" + (
                           "; 2 substitutions over W2" if tier == "thorough" else "")})
